@@ -35,3 +35,54 @@ def replay_table(inputs, obl):
     if problems:
         return dict(confirmed=True, detail='; '.join(problems[:3]))
     return dict(confirmed=False, detail='table contents agree with the row model')
+
+
+def replay_indexed_commit(inputs, obl):
+    """indexed table: insert histories (same key several times with and without a read in between, new / existing / interleaved keys,
+    single and batch) against a dict model: one row per key - the last inserted - ordered by key, and no insert makes the table unusable"""
+    from klongpy import KlongInterpreter
+    problems = []
+    hists = [
+        [('ins', [2, 21]), ('ins', [2, 22]), ('read',)],
+        [('ins', [5, 51]), ('ins', [5, 52]), ('read',)],
+        [('ins', [2, 21]), ('read',), ('ins', [2, 22]), ('read',)],
+        [('batch', [[5, 51], [5, 52], [1, 11], [5, 53]]), ('read',)],
+        [('ins', [5, 50]), ('read',)], [('ins', [0, 1]), ('ins', [9, 90]), ('ins', [4, 40]), ('read',)],
+        [('ins', [7, 71]), ('ins', [1, 12]), ('ins', [7, 72]), ('ins', [3, 30]), ('read',), ('ins', [3, 31]), ('ins', [3, 32]), ('read',)],
+    ]
+    import random
+    rnd = random.Random(7)
+    big = [[rnd.randint(0, 9), i] for i in range(240)]           # long buffers: an unstable sort shows
+    hists.append([('batch', big), ('read',)])
+    hists.append([('ins', r) for r in big[:60]] + [('read',)])
+    for h in hists:
+        k = KlongInterpreter()
+        k('.py("klongpy.db")')
+        k('T::.table([["k" [1 2 7]] ["v" [10 20 70]]])')
+        k('.index(T;["k"])')
+        model = {1: 10, 2: 20, 7: 70}
+        try:
+            for op in h:
+                if op[0] == 'ins':
+                    k(f".insert(T;[{op[1][0]} {op[1][1]}])")
+                    model[op[1][0]] = op[1][1]
+                elif op[0] == 'batch':
+                    k(".insert(T;[" + ' '.join(f"[{a} {b}]" for a, b in op[1]) + "])")
+                    for a, b in op[1]:
+                        model[a] = b
+                else:
+                    ks = [int(x) for x in k('T?"k"')]
+                    vs = [int(x) for x in k('T?"v"')]
+                    n = int(k('#T'))
+                    want_k = sorted(model)
+                    if ks != want_k or vs != [model[x] for x in want_k] or n != len(model):
+                        problems.append(f"after {str(h[:h.index(op) + 1])[:160]}: keys {ks} values {vs} count {n}; one row per key, last inserted, ordered by key gives "
+                                        f"{want_k} {[model[x] for x in want_k]}")
+                        break
+        except Exception as e:
+            problems.append(f"history {str(h)[:160]}: raised {type(e).__name__}: {str(e)[:100]}")
+        if problems:
+            break
+    if problems:
+        return dict(confirmed=True, detail='; '.join(problems[:2]))
+    return dict(confirmed=False, detail='indexed insert histories agree with the one-row-per-key model')
